@@ -304,7 +304,7 @@ func runVerify(w *World, opt verifyOpts) int {
 	// known-finding carve-outs
 	for _, o := range obls {
 		for _, kf := range known {
-			if kf.Property != opt.prop && !opt.all {
+			if kf.Property != opt.prop && !opt.all && !depNames[o.Func] {
 				continue
 			}
 			if kf.matches(o) {
@@ -399,7 +399,11 @@ func runVerify(w *World, opt verifyOpts) int {
 				if o.DropRes[j] != "unsat" {
 					// the obligation still fails inside this finding's region: the defect is still there
 					if !kfPrinted[kf] {
-						lines = append(lines, fmt.Sprintf("KNOWN-FINDING: property=%s %s %s [%s proved outside region: %s]", opt.prop, kf.ID, kf.What, o.Name, kf.Region))
+						kprop := opt.prop
+						if kf.Property != opt.prop && !opt.all {
+							kprop = kf.Property // a dependency's obligation (thorough tier): the finding is listed under its own property
+						}
+						lines = append(lines, fmt.Sprintf("KNOWN-FINDING: property=%s %s %s [%s proved outside region: %s]", kprop, kf.ID, kf.What, o.Name, kf.Region))
 						kfPrinted[kf] = true
 					}
 					rec.Note += "proved under NOT(" + kf.Region + "); "
